@@ -11,6 +11,7 @@ import XV.Drv.Sched
 import XV.Drv.Pool
 import XV.Drv.Contract
 import XV.Drv.BftMatch
+import XV.Drv.Collect
 /-! line-protocol model driver: `xvdriver <engine> < ops.txt > model.out` -/
 def main (args : List String) : IO UInt32 := do
   match args with
@@ -27,4 +28,5 @@ def main (args : List String) : IO UInt32 := do
   | ["pool"] => XV.Drv.Pool.run; return 0
   | ["contract"] => XV.Drv.Contract.run; return 0
   | ["bftmatch"] => XV.Drv.BftMatch.run; return 0
+  | ["collect"] => XV.Drv.Collect.run; return 0
   | _ => IO.eprintln "usage: xvdriver <engine>"; return 2
